@@ -16,6 +16,69 @@ KINDS = ['Indexed', 'IndexedWithPostBase', 'LiteralWithNameRef', 'LiteralWithPos
 INT = r'(0b[01_]+|0x[0-9a-fA-F_]+|\d[\d_]*)'
 
 
+import json
+import os
+
+BODIES = os.path.join(os.path.dirname(os.path.abspath(__file__)), 'snapshots', 'GenQStateless.bodies.json')
+
+
+def fingerprint(body):
+    """comment-free, whitespace-free text of a body with only the FACT SITES masked: integer literals (prefix sizes, masks,
+    flag patterns, the overhead) and the operator of the size comparison.  Everything else - statements, their order,
+    conditions, calls, early exits - must be exactly the recorded text."""
+    t = re.sub(r'\s+', '', body)
+    t = re.sub(r'mem_size>=?max_size', 'mem_size?max_size', t)
+    t = re.sub(r'(?<![A-Za-z_0-9])(0b[01_]+|0x[0-9a-fA-F_]+|\d[\d_]*)(?:u8|u16|u32|u64|usize)?(?![A-Za-z_0-9])', '#', t)
+    return t
+
+
+def whole_bodies(repo):
+    """name -> fingerprint of every function of the stateless path"""
+    out = {}
+    blk = Source(repo + '/h3/src/qpack/block.rs')
+    for ty, fns in (('HeaderBlockField', ['decode']), ('HeaderPrefix', ['new', 'encoded_insert_count', 'base_without_refs', 'decode', 'encode']),
+                    ('Indexed', ['decode', 'encode']), ('LiteralWithNameRef', ['new_static', 'new_dynamic', 'decode', 'encode']),
+                    ('Literal', ['new', 'decode', 'encode'])):
+        for fn in fns:
+            body, _ = impl_fn(blk, ty, fn)
+            out['block.rs %s::%s' % (ty, fn)] = fingerprint(body)
+    fld = Source(repo + '/h3/src/qpack/field.rs')
+    for fn in ('new', 'mem_size', 'with_value', 'into_inner'):
+        body, _ = impl_fn(fld, 'HeaderField', fn)
+        out['field.rs HeaderField::' + fn] = fingerprint(body)
+    b2, _, _ = fld.item_block(r'impl<N,\s*V>\s*From<\(N,\s*V\)>\s*for\s+HeaderField')
+    out['field.rs From<(N,V)>'] = fingerprint(b2)
+    m = re.search(r'pub\s+const\s+ESTIMATED_OVERHEAD_BYTES[^;]*;', fld.text)
+    out['field.rs consts'] = fingerprint(' '.join(re.findall(r'(?:pub\s+)?const\s+\w+[^;]*;', fld.text)))
+    pi = Source(repo + '/h3/src/qpack/prefix_int.rs')
+    for fn in ('decode', 'encode'):
+        body, _ = pi.fn_body(fn)
+        out['prefix_int.rs ' + fn] = fingerprint(body)
+    out['prefix_int.rs consts'] = fingerprint(' '.join(re.findall(r'(?:pub\s+)?const\s+\w+[^;]*;', pi.text)))
+    enc = Source(repo + '/h3/src/qpack/encoder.rs')
+    body, _ = enc.fn_body('encode_stateless')
+    out['encoder.rs encode_stateless'] = fingerprint(body)
+    dec = Source(repo + '/h3/src/qpack/decoder.rs')
+    body, _ = dec.fn_body('decode_stateless')
+    out['decoder.rs decode_stateless'] = fingerprint(body)
+    for k in ('prefix_int::Error', 'prefix_string::Error', 'StaticError', 'ParseError'):
+        b3, _, _ = dec.item_block(r'impl\s+From<' + k + r'>\s+for\s+DecoderError')
+        out['decoder.rs From<%s>' % k] = fingerprint(b3)
+    pe = Source(repo + '/h3/src/qpack/parse_error.rs')
+    out['parse_error.rs'] = fingerprint(pe.text)
+    return out
+
+
+def check_bodies(repo):
+    got = whole_bodies(repo)
+    want = json.load(open(BODIES))
+    for k in sorted(set(got) | set(want)):
+        if got.get(k) != want.get(k):
+            a, b = want.get(k) or '', got.get(k) or ''
+            i = next((j for j in range(min(len(a), len(b))) if a[j] != b[j]), min(len(a), len(b)))
+            raise AnchorLost('%s: body differs from the recorded one at "...%s" (now "...%s")' % (k, a[max(0, i - 30):i + 30], b[max(0, i - 30):i + 30]))
+
+
 def top_statements(body):
     """split a block body into its top-level statements (brace/paren depth 0; `;` or a closing `}` of a block statement)"""
     out, cur, depth, i, n = [], [], 0, 0, len(body)
@@ -270,6 +333,8 @@ def extract(repo):
     if not m or not re.search(r'self\.name\.len\(\)\s*\+\s*self\.value\.len\(\)\s*\+\s*ESTIMATED_OVERHEAD_BYTES', body):
         raise AnchorLost('HeaderField::mem_size')
     f['overhead'] = int(m.group(1))
+    # every function of the stateless path, whole (only the fact sites above are masked)
+    check_bodies(repo)
     return f, spans
 
 
@@ -322,5 +387,8 @@ def render(f):
 
 if __name__ == '__main__':
     import sys
+    if len(sys.argv) > 2 and sys.argv[2] == '--record':
+        json.dump(whole_bodies(sys.argv[1]), open(BODIES, 'w'), indent=0, sort_keys=True)
+        sys.exit(0)
     facts, spans = extract(sys.argv[1] if len(sys.argv) > 1 else '/repo')
     sys.stdout.write(render(facts))
